@@ -441,14 +441,16 @@ def F21():
             self.pos = o if w == 0 else (self.pos + o if w == 1 else self.n + o); return self.pos
         def read(self, k=-1):
             k = self.n - self.pos if k is None or k < 0 else min(k, self.n - self.pos); self.pos += k; return bytes(k)
-    for nm, flt in (("deflate", [{"id": py7zr.FILTER_DEFLATE}]), ("lzma2", [{"id": py7zr.FILTER_LZMA2, "preset": 1}])):
+    for nm, flt in [(n, f) for n, f in (("deflate", [{"id": py7zr.FILTER_DEFLATE}]), ("deflate64", [{"id": py7zr.FILTER_DEFLATE64}]), ("zstd", [{"id": py7zr.FILTER_ZSTD}]),
+                                        ("brotli", [{"id": py7zr.FILTER_BROTLI, "level": 1}]), ("lzma2", [{"id": py7zr.FILTER_LZMA2, "preset": 1}]))
+                    if n in os.environ.get("F21_CODECS", "deflate,lzma2").split(",")]:
         p = os.path.join(d, nm + ".7z")
         with py7zr.SevenZipFile(p, "w", filters=flt) as z:
             z.writef(Zeros(1 << 30), "zeros.bin")
         out[nm] = int(subprocess.run([sys.executable, "-c", code, p], capture_output=True, text=True, timeout=600).stdout.strip() or -1)
     shutil.rmtree(d, ignore_errors=True)
     return f"peak RSS extracting 1 GiB of zeros to a null writer: {out} MiB; budget 700 MiB (Deflate/Deflate64/Brotli/ZStandard ignore max_length: one 1 MiB input block expands ~1000x)" \
-        if out["deflate"] > 1000 else None
+        if max(v for k, v in out.items() if k != "lzma2") > 1000 else None
 
 
 if __name__ == "__main__":
